@@ -87,6 +87,9 @@ def materialise(plan, opt, rng, work, fmt="json"):
         path_index[fn] = i
         kind = a["kind"]
         objs = [sample(sid, rng) for sid in a["ids"]]
+        if plan["fault"] == "encode" and i == 1 and objs:
+            # a lone surrogate (the JSON escape \ud800 is legal): it ends up in a Literal[...] of the rendered text, which UTF-8 cannot encode
+            objs[0]["name"] = "\ud800x"
         lookup = "-"
         data = None
         if kind == "glob":
@@ -216,6 +219,7 @@ def materialise(plan, opt, rng, work, fmt="json"):
         opt_argv = _set_fw(opt_argv, ["-f", "custom", "--code-generator", "no_such_module_j2m.Gen"])
     elif f == "generator":
         opt_argv = _set_fw(opt_argv, ["-f", "custom", "--code-generator", "j2m_raising_gen.RaisingGenerator"])
+    # (f == "encode": the content fault was placed in the first file, see ENCODE_OPT / _poison)
     if fmt != "json":
         opt_argv += ["-i", fmt]
     return argv + opt_argv, path_index, per_model, out_path
@@ -415,11 +419,17 @@ def run_plan(plan, opt, rng, fmt="json", sub=False):
         shutil.rmtree(work, ignore_errors=True)
 
 
+# the option set of an "encode" plan: a framework that renders observed strings as Literal[...] (so the text does hold the character)
+ENCODE_OPT = {"argv": ["-f", "pydantic"], "fw": "pydantic", "layout": "flat", "policy": [("percent", 70), ("number", 10)], "kw": {}}
+
+
 def cli_traces(chk, plans, fmts=("json",), sub_every=0):
     traces, inputs = [], {}
     for i, plan in enumerate(plans):
         opt = OPTION_SETS[i % len(OPTION_SETS)] if plan["fault"] in ("none", "generator") else OPTION_SETS[chk.rng.randrange(3)]
         fmt = fmts[i % len(fmts)]
+        if plan["fault"] == "encode":
+            opt, fmt = ENCODE_OPT, "json"
         evs, inp = run_plan(plan, opt, chk.rng, fmt, sub=bool(sub_every) and i % sub_every == 0)
         tid = "cli%d" % i
         traces.append({"id": tid, "events": evs})
